@@ -147,6 +147,7 @@ class LeanStatus:
         self.driver_crashed = False  # the driver process died / timed out while answering (infrastructure, not a verdict)
         self.infra = ""  # non-empty: the toolchain itself failed (no source location in the build output)
         self.tables_present: Optional[dict] = None
+        self.driver_path: Optional[str] = None
         self.leanchecker: Optional[str] = None
 
     @property
@@ -182,15 +183,35 @@ class LeanStatus:
         return " | ".join(parts) if parts else "ok"
 
 
-def run_translator() -> Tuple[bool, str]:
-    """regenerate lean/PEval/Gen/*.lean from the CURRENT /repo source"""
+def run_translator() -> Tuple[bool, str, Dict[str, str]]:
+    """regenerate lean/PEval/Gen/*.lean from the CURRENT /repo source; returns (ok, message, {file: why it failed})"""
     from . import gen_tables
 
     try:
         changed = gen_tables.generate(LEAN_DIR / "PEval" / "Gen")
-        return True, "changed: " + ",".join(changed) if changed else "unchanged"
-    except Exception as e:  # the repo was changed in a way the translator cannot express
-        return False, f"{type(e).__name__}: {e}"
+        failed = dict(getattr(gen_tables, "FAILED", {}))
+        msg = ("changed: " + ",".join(changed)) if changed else "unchanged"
+        if failed:
+            msg += "; generators that could not follow the source: " + "; ".join(f"{k} ({v[:120]})" for k, v in failed.items())
+        return True, msg, failed
+    except Exception as e:  # the translator itself broke
+        return False, f"{type(e).__name__}: {e}", {}
+
+
+def lean_imports(module: str, seen: Optional[set] = None) -> set:
+    """transitive `import PEval.…` closure of a module of our library (by reading the sources)"""
+    seen = set() if seen is None else seen
+    if module in seen or not module.startswith("PEval"):
+        return seen
+    seen.add(module)
+    path = LEAN_DIR / (module.replace(".", "/") + ".lean")
+    try:
+        txt = path.read_text()
+    except OSError:
+        return seen
+    for m in re.finditer(r"^import\s+(PEval[\w.]*)", txt, re.M):
+        lean_imports(m.group(1), seen)
+    return seen
 
 
 _ERR_RE = re.compile(r"^error: (?:[^:]*?/)?(PEval/[\w/]+\.lean|Driver\.lean):(\d+):(\d+)", re.M)
@@ -291,7 +312,13 @@ def prepare_lean(prop: str, theorems: Sequence[str], tier: str, extra_targets: S
     st = LeanStatus()
     module = f"PEval.Properties.{prop}"
     with lean_lock():
-        st.translator_ok, st.translator_msg = run_translator()
+        ok, st.translator_msg, failed = run_translator()
+        # a generator that could not follow the source matters only to the properties whose modules import its file
+        deps = lean_imports(module) | lean_imports(f"PEval.Driver.{prop}")
+        hit = [f for f in failed if ("PEval.Gen." + f[:-5]) in deps]
+        st.translator_ok = ok and not hit
+        if hit:
+            st.translator_msg = "translator failed for " + ", ".join(f"{f}: {failed[f][:200]}" for f in hit)
         # the driver first (it does not depend on the proofs), so that a broken proof leaves the
         # correspondence check usable
         rc, out = _run(["lake", "build", "pevaldriver"], LEAN_DIR)
@@ -300,6 +327,17 @@ def prepare_lean(prop: str, theorems: Sequence[str], tier: str, extra_targets: S
             st.driver_msg = out[-2000:]
             if not _ERR_RE.search(out):
                 st.infra = "lake build pevaldriver failed without a source error: " + out[-600:]
+        else:
+            # a private copy of the driver for this process: another check running in the same tree may rebuild the binary
+            try:
+                import shutil
+
+                src = LEAN_DIR / ".lake" / "build" / "bin" / "pevaldriver"
+                dst = Path(use_scratch_tmpdir()) / "pevaldriver"
+                shutil.copy2(src, dst)
+                st.driver_path = str(dst)
+            except Exception:  # noqa: BLE001
+                st.driver_path = None
         lake_build([module, *extra_targets], st)
         if st.build_ok:
             audit_axioms(prop, module, theorems, st)
@@ -336,7 +374,9 @@ def run_model(prop: str, requests: List[dict], st: Optional[LeanStatus] = None) 
         r["id"] = i
         lines.append(json.dumps(r, separators=(",", ":")))
     data = "\n".join(lines) + "\n"
-    if exe.exists() and (st is None or st.driver_ok):
+    if st is not None and st.driver_ok and st.driver_path and os.path.exists(st.driver_path):
+        cmd = [st.driver_path]
+    elif exe.exists() and (st is None or st.driver_ok):
         cmd = [str(exe)]
     else:
         cmd = ["lake", "env", "lean", "--run", "Driver.lean"]
